@@ -340,6 +340,54 @@ def rw_iflet_map(text, nth, fired, fname):
     raise Undecided('lost-anchor', 'iflet_map %d: no such statement in %s' % (nth, fname))
 
 
+def rw_for_each(text, nth, fired, fname):
+    """R17 (second half, added for unit `repair_decision`, directive `@@for_each k`): the nth statement
+    of the form `ITER.for_each(|PAT| BODY);` (value discarded, closure used only for its effect)
+    becomes `for PAT in ITER { BODY; }` — the definition of Iterator::for_each.  The resulting `for`
+    is an ordinary loop for @@desugar_for / @@loop numbering."""
+    src = Src(text)
+    cnt = 0
+    for i in range(src.n()):
+        if src.s(i) == '.' and src.s(i + 1) == 'for_each' and src.s(i + 2) == '(' and src.s(i + 3) == '|':
+            close = src.match[i + 2]
+            if src.s(close + 1) != ';':
+                continue
+            j = i - 1
+            while j >= 0:
+                sj = src.s(j)
+                if sj in rscan.CLOSE:
+                    j = src.match[j] - 1
+                    continue
+                if sj in (';', '{', '}'):
+                    break
+                j -= 1
+            start = j + 1
+            if src.s(start) in ('let', 'return'):
+                continue
+            cnt += 1
+            if cnt != nth:
+                continue
+            pe = i + 4
+            while src.s(pe) != '|':
+                if src.s(pe) in rscan.OPEN: pe = src.match[pe]
+                pe += 1
+            pat = text[src.t(i + 4).pos:src.t(pe - 1).end]
+            body_a = src.t(pe + 1).pos
+            body_b = src.t(close - 1).end
+            body = text[body_a:body_b]
+            if src.s(pe + 1) != '{':
+                body = '{ ' + body + '; }'
+            expr = text[src.t(start).pos:src.t(i - 1).end]
+            whole_a, whole_b = src.t(start).pos, src.t(close + 1).end
+            head = 'for %s in %s ' % (pat.replace('\n', ' '), expr.replace('\n', ' '))
+            pre_nl = text[whole_a:body_a].count('\n')
+            post_nl = text[body_b:whole_b].count('\n')
+            new = head + '\n' * pre_nl + body + '\n' * post_nl
+            fired.append(('R17', src.line_of(whole_a), 'ITER.for_each(|x| ..); -> for x in ITER'))
+            return text[:whole_a] + new + text[whole_b:]
+    raise Undecided('lost-anchor', 'for_each %d: no such statement in %s' % (nth, fname))
+
+
 def rw_match_map(text, nth, fired, fname):
     """R17b: the nth expression `EXPR.map(|PAT| BODY)` whose closure captures `&mut` state (value
     used) becomes `match EXPR { Some(PAT) => Some(BODY), None => None }` — the definition of
@@ -769,6 +817,9 @@ def splice_function(ft, directives, security=False):
     for d in directives:
         if d.kind == 'iflet_map':
             text = rw_iflet_map(text, int(d.arg.split()[0]) if d.arg.strip() else 1, fired, ft.name)
+    for d in directives:
+        if d.kind == 'for_each':
+            text = rw_for_each(text, int(d.arg.split()[0]) if d.arg.strip() else 1, fired, ft.name)
     if any(d.kind == 'mut_self' for d in directives):
         text = rw_mut_self(text, fired, ft.name)
     if text.count('\n') != ft.orig.count('\n'):
